@@ -73,12 +73,25 @@ type stats struct {
 	rejectedWithNil                                bool // a rejected load carried a nil request that a target uses
 	emptyReqUsed, emptyCredUsed                    bool
 	reprEmptyMaps, reprNilInner, emptyMapsNoTarget bool
+	reprText                                       bool
+
+	// part "edges"
+	edges                          bool
+	edge                           map[string]bool // labels of the edge values offered and what became of them
+	edgeCombined, edgeValidApplied bool
 }
 
 // nontrivial is the rule of DESIGN.md: an accepted load that changes a
 // request body and re-points or removes a target in the same revision, or a
 // rejected load between two accepted ones.
+//
+// Part "edges" has its own rule: some offered configuration combined an
+// invalidating edge value with a second edge value (invalidating or harmless)
+// and some load was applied.
 func (s *stats) nontrivial() bool {
+	if s.edges {
+		return s.edgeCombined && s.accepted > 0
+	}
 	return s.bodyEditWithRepointOrRemove || s.rejectedBetweenAccepted
 }
 
@@ -147,6 +160,13 @@ func (s *stats) labels() []string {
 	add(s.reprEmptyMaps, "repr-empty-maps-non-nil")
 	add(s.emptyMapsNoTarget, "repr-empty-target-map-non-nil")
 	add(s.reprNilInner, "repr-oneof-wrapper-with-nil-message")
+	add(s.reprText, "repr-text-format-round-trip")
+	var es []string
+	for k := range s.edge {
+		es = append(es, k)
+	}
+	sort.Strings(es)
+	l = append(l, es...)
 	return l
 }
 
@@ -248,6 +268,7 @@ func run(sc *Scenario) (st stats, err error) {
 		}
 	}()
 	st.invalidKinds = map[string]bool{}
+	st.edges, st.edge = sc.Edges, map[string]bool{}
 
 	var calls []call
 	h := target.Handler{
@@ -281,20 +302,40 @@ func run(sc *Scenario) (st stats, err error) {
 		if sc.Base == nil {
 			return st, vio("bad-scenario", "bad scenario: base_mode=config without base")
 		}
-		if r := sc.Base.invalidReasons(); len(r) > 0 {
-			return st, vio("bad-scenario", "bad scenario: base configuration is invalid (%v)", r)
+		baseReasons, baseUnd := sc.Base.invalidReasons(), sc.Base.undecided(sc.Edges)
+		if len(baseReasons) > 0 && !sc.Edges {
+			return st, vio("bad-scenario", "bad scenario: base configuration is invalid (%v)", baseReasons)
 		}
-		st.withBase = true
 		c, cerr := target.NewConfigWithBase(h, sc.Base.buildRepr(sc.BaseRepr))
-		if cerr != nil || c == nil {
+		switch {
+		case len(baseReasons) > 0:
+			// part "edges": the constructor is an entry point that validates
+			if cerr == nil {
+				return st, vio("gate", "NewConfigWithBase(h, %v) returned no error; the base is invalid %v", sc.Base, baseReasons)
+			}
+			st.edge["invalid-base-refused"] = true
+		case len(baseUnd) > 0:
+			st.edge["base-validity-not-judged"] = true
+		case cerr != nil:
 			return st, vio("constructor", "NewConfigWithBase(h, valid base %v) = %v, %v", sc.Base, c, cerr)
 		}
+		if cerr != nil {
+			cfg = target.NewConfig(h)
+			break
+		}
+		if c == nil {
+			return st, vio("constructor", "NewConfigWithBase(h, base %v) returned no Config and no error", sc.Base)
+		}
+		st.withBase = true
 		cfg = c
 		cur = sc.Base.clone()
 		replayed = view(cur.build())
 		st.noteRepr(sc.BaseRepr, cur)
 		if len(cur.nilRequestTargets()) > 0 {
 			st.nilReqInBase = true
+		}
+		if sc.Edges {
+			st.noteEdges(cur, nil, baseUnd, true, true)
 		}
 	default:
 		return st, vio("bad-scenario", "bad scenario: base_mode %q", sc.BaseMode)
@@ -312,18 +353,26 @@ func run(sc *Scenario) (st stats, err error) {
 
 		// Expected verdict, from the property statement: applied iff valid and
 		// (there is no current configuration or the revision is strictly greater).
-		var reasons []string
-		valid := spec != nil
+		// A configuration on which the documentation does not decide
+		// (ConfigSpec.undecided) has no expected validity: the code's answer is
+		// followed for that half of the gate and everything else is demanded.
+		var reasons, und []string
+		valid, decided := spec != nil, true
 		if spec != nil {
-			reasons = spec.invalidReasons()
+			reasons, und = spec.invalidReasons(), spec.undecided(sc.Edges)
 			valid = len(reasons) == 0
-			// Cross-check the reference predicate with the package's own Validate.
-			if verr := target.Validate(spec.build()); (verr == nil) != valid {
-				return st, vio("validate-mismatch", "load %d: Validate(%v) returned an error: %v; the reference predicate says invalid reasons = %v", i, spec, verr != nil, reasons)
-			}
-			if ld.Repr != 0 {
-				if verr := target.Validate(spec.buildRepr(ld.Repr)); (verr == nil) != valid {
-					return st, vio("validate-mismatch", "load %d: Validate(%v in representation %d) returned an error: %v; the reference predicate says invalid reasons = %v", i, spec, ld.Repr, verr != nil, reasons)
+			decided = !valid || len(und) == 0
+			// Cross-check the reference predicate with the package's own Validate
+			// (part "edges" does it below, together with the other entry points,
+			// after Load itself has been judged).
+			if decided && !sc.Edges {
+				if verr := target.Validate(spec.build()); (verr == nil) != valid {
+					return st, vio("validate-mismatch", "load %d: Validate(%v) returned an error: %v; the reference predicate says invalid reasons = %v", i, spec, verr != nil, reasons)
+				}
+				if ld.Repr != 0 {
+					if verr := target.Validate(spec.buildRepr(ld.Repr)); (verr == nil) != valid {
+						return st, vio("validate-mismatch", "load %d: Validate(%v in representation %d) returned an error: %v; the reference predicate says invalid reasons = %v", i, spec, ld.Repr, verr != nil, reasons)
+					}
 				}
 			}
 		}
@@ -340,13 +389,12 @@ func run(sc *Scenario) (st stats, err error) {
 		// The order of the calls within one load is not part of the property
 		// (it follows map iteration); sort so that run stays a pure function.
 		got := append([]call(nil), calls...)
-		sort.Slice(got, func(a, b int) bool {
-			if got[a].name != got[b].name {
-				return got[a].name < got[b].name
-			}
-			return got[a].kind < got[b].kind
-		})
+		sortCalls(got)
 		after := cfg.Current()
+		if !decided && revOK {
+			valid = gerr == nil
+			want = valid
+		}
 
 		desc := fmt.Sprintf("load %d (current=%v, loaded=%v)", i, cur, spec)
 		if (gerr == nil) != want {
@@ -354,7 +402,23 @@ func run(sc *Scenario) (st stats, err error) {
 			if gerr != nil && len(got) > 0 {
 				ran = fmt.Sprintf("; the load that returned this error had already run handlers %s and Current() unchanged=%v", callList(got), sameConfig(before, after))
 			}
-			return st, vio("gate", "%s: Load returned %v; expected accepted=%v (valid=%v %v, revision strictly greater or no current configuration=%v)%s", desc, gerr, want, valid, reasons, revOK, ran)
+			if gerr == nil && len(got) > 0 {
+				ran = fmt.Sprintf("; it ran handlers %s and Current() unchanged=%v", callList(got), sameConfig(before, after))
+			}
+			return st, vio("gate", "%s: Load returned %v; expected accepted=%v (%s, revision strictly greater or no current configuration=%v)%s", desc, gerr, want, describe(reasons, und), revOK, ran)
+		}
+		if sc.Edges && spec != nil {
+			vOK, eerr := entryPoints(spec, ld.Repr, fmt.Sprintf("load %d (offered=%v, %s)", i, spec, describe(reasons, und)))
+			if eerr != nil {
+				return st, eerr
+			}
+			if decided && vOK != valid {
+				return st, vio("validate-mismatch", "load %d: Validate(%v) accepted=%v; the configuration is %s", i, spec, vOK, describe(reasons, und))
+			}
+			if !decided && revOK && vOK != (gerr == nil) {
+				return st, vio("entry-points-disagree", "%s: Validate accepted=%v but Load with a strictly greater revision returned %v", desc, vOK, gerr)
+			}
+			st.noteEdges(spec, reasons, und, revOK, gerr == nil)
 		}
 
 		if !want {
@@ -563,6 +627,9 @@ func (st *stats) noteRepr(repr int, spec *ConfigSpec) {
 		if len(spec.Targets) == 0 {
 			st.emptyMapsNoTarget = true
 		}
+	}
+	if repr&reprText != 0 && spec.textRepresentable() {
+		st.reprText = true
 	}
 	if repr&reprNilInner != 0 {
 		for _, b := range spec.Requests {
